@@ -36,8 +36,8 @@ func checkJSONRecord(rc recCase, payloads []string, pan string) (clause, detail 
 	if !ok || !isStr {
 		return "time-member", fmt.Sprintf("no string member \"time\" in %.200q", p)
 	}
-	if _, err := time.Parse(slog.VerifDefaultLayout(), ts); err != nil {
-		return "time-member", fmt.Sprintf("time %q does not parse with the active layout %q", ts, slog.VerifDefaultLayout())
+	if _, err := time.Parse(refDefaultLayout(), ts); err != nil {
+		return "time-member", fmt.Sprintf("time %q does not parse with the active layout %q", ts, refDefaultLayout())
 	}
 	lv, _ := obj.Get("level")
 	if r := jsonStringIs(lv, slog.Level(rc.Level).String()); r != "" {
